@@ -168,6 +168,65 @@ func rulesC16(c *Ctx) {
 			subs = append(subs, s)
 		}
 	}
+	// submissions made through a private helper that builds the Pip and calls Runner.Run itself
+	// (starter.start(scope, name, body, ...)): the helper call is the submission
+	for _, g := range withClosures(try) {
+		for _, ci := range Calls(g) {
+			h := ci.Static
+			call, isCall := ci.Instr.(*ssa.Call)
+			if h == nil || !isCall || h.Pkg != try.Pkg || h.Blocks == nil || h == try {
+				continue
+			}
+			var fields map[string]ssa.Value
+			for _, hc := range Calls(h) {
+				if hc.Method == nil || hc.Method.Name() != "Run" || !strings.HasSuffix(qualObj(hc.Method), "(Runner).Run") {
+					continue
+				}
+				if x, ok := hc.Arg(0).(*ssa.UnOp); ok {
+					if a, ok := x.X.(*ssa.Alloc); ok {
+						fields = literalStores(a)
+					}
+				}
+				// the helper hands on Run's error
+				okRet := false
+				for _, r := range returnsOf(h) {
+					if len(r.Results) > 0 && resolve(r.Results[len(r.Results)-1]) == hc.Value() {
+						okRet = true
+					}
+				}
+				if !okRet {
+					fields = nil
+				}
+			}
+			if fields == nil {
+				continue
+			}
+			for k, v := range fields {
+				fields[k] = substParams(v, h, ci.Common.Args, 0)
+			}
+			s := &trySubmission{call: call, fn: g, fields: fields}
+			if in := s.fields["Context.In"]; in != nil {
+				for _, o := range Origins(in, FlowOpts{Transparent: func(ci *CallInfo) []ssa.Value {
+					if ci.Static != nil {
+						return ci.Common.Args
+					}
+					return nil
+				}}) {
+					nm := o.Name
+					if o.Kind == "field" || o.Kind == "freevar" {
+						nm = nm[strings.LastIndex(nm, ".")+1:]
+						if k, ok := tagOf[nm]; ok {
+							s.kind = k
+						}
+					}
+				}
+				if s.kind == "" {
+					s.kind = kindByFieldWalk(in, tagOf)
+				}
+			}
+			subs = append(subs, s)
+		}
+	}
 	byKind := map[string]*trySubmission{}
 	for _, s := range subs {
 		if s.kind == "" {
